@@ -699,6 +699,18 @@ impl Scenario for SpendNet {
     }
 
     fn execute(&self, plan: &Plan, ctx: &mut RunCtx) {
+        self.execute_inner(plan, ctx);
+        // whatever way the run ended, fd 1 is healthy again before the next run of this worker starts
+        crate::faults::stdout_heal();
+    }
+
+    fn shrink_event(&self, ev: &Event) -> Vec<Event> {
+        self.shrink_event_impl(ev)
+    }
+}
+
+impl SpendNet {
+    fn execute_inner(&self, plan: &Plan, ctx: &mut RunCtx) {
         let mut utxos: Vec<Utxo> = vec![];
         let mut tx = Transaction::new(1, 0);
         let mut m = MTx { version: 1, locktime: 0, ins: vec![], outs: vec![] };
@@ -1531,7 +1543,7 @@ impl Scenario for SpendNet {
         }
     }
 
-    fn shrink_event(&self, ev: &Event) -> Vec<Event> {
+    fn shrink_event_impl(&self, ev: &Event) -> Vec<Event> {
         let mut out = vec![];
         if jstr(ev, "op") == "setup" {
             if let Some(us) = ev.get("utxos").and_then(|u| u.as_array()) {
